@@ -689,6 +689,11 @@ func mergeStates(base int, states []*State) *State {
 			vals := make([]Value, 0, len(live))
 			for _, s := range live {
 				v, has := get(s)[k]
+				if !has && strings.HasPrefix(k, "calls:") {
+					// ghost call counters: 0 before any havoc of counters, else the generation's variable
+					v = scalarV(types.Typ[types.Int], mkInt(sortInt, 0))
+					has = true
+				}
 				if !has {
 					// lazily materialise with the deterministic initial name
 					var t types.Type
